@@ -331,7 +331,7 @@ class RuntimeState(utils.NiceRepr):
         # When enabling a report flag, toggle all others off
         if state is None:
             state = self._global_state
-        for k in state.keys():
+        for k in self._global_state.keys():
             if k.startswith('REPORT_'):
                 state[k] = False
         state['REPORT_' + reportchoice.upper()] = True
